@@ -92,6 +92,8 @@ def _work(args):
             agg.errors.append((repr(u), traceback.format_exc()))
             if len(agg.errors) > 3:
                 break
+        if any(v.get("oracle") == "loop_stalled" for v in agg.violations):
+            break          # every further unit would cost seconds of spinning: report what we have
     faulthandler.cancel_dump_traceback_later()
     return agg
 
@@ -126,7 +128,7 @@ def run_units(prop, unit_iter, jobs, budget_s, chunk=40, wall=600):
                 total.merge(done.result())
             except Exception as e:
                 total.errors.append(("worker", f"{type(e).__name__}: {e}"))
-            if total.errors or len(total.violations) >= 20:
+            if total.errors or len(total.violations) >= 20 or any(v.get("oracle") == "loop_stalled" for v in total.violations):
                 for p in pending:
                     p.cancel()
                 break
